@@ -491,6 +491,17 @@ func c06BothTx(r *core.Run) {
 			}
 			return true
 		})
+		// on success the fence transaction is still open: it is handed out paired with the business transaction and
+		// ends with it — also when the handler answered "skip" (an empty rollback has just written the suspension
+		// record in it; ending it early with a rollback discards that record)
+		for _, ex := range res.Exits {
+			if ex.Class != flow.ExitOK || !ex.St.Has("ok:fencebegin") {
+				continue
+			}
+			r.Sites++
+			r.Check(!ex.St.Maybe("fenceend"), "C06.bothtx", core.ShortKey(fn.Obj)+" success hands out the fence transaction still open", w.Pos(ex.Pos),
+				"neither committed nor rolled back before the business transaction ends", "on a success path the fence transaction has already been ended here: what the fence handler wrote in it (the suspension record of an empty rollback) no longer shares the fate of the business transaction — a rollback-before-try is acknowledged and leaves no record, so the late try is accepted")
+		}
 		for _, ex := range res.Exits {
 			if ex.Class == flow.ExitOK || !ex.St.Has("ok:bizbegin") {
 				continue
